@@ -365,11 +365,11 @@ theorem ledgerInv_apply (s : State) (op : Op) (hi : Inv s) (hl : LedgerInv s) : 
   · rw [h]; exact hl
   · exact ledgerInv_stepMsg hi hl h
 
-theorem ledgerInv_run : ∀ (ops : List Op) (s : State), Inv s → Clean s ops → LedgerInv s → LedgerInv (run s ops)
-  | [], _, _, _, hl => hl
-  | op :: ops, s, hi, hc, hl => by
+theorem ledgerInv_run : ∀ (ops : List Op) (s : State), Inv s → LedgerInv s → LedgerInv (run s ops)
+  | [], _, _, hl => hl
+  | op :: ops, s, hi, hl => by
     show LedgerInv (run (apply s op) ops)
-    exact ledgerInv_run ops _ (inv_apply s op hi hc.1) hc.2 (ledgerInv_apply s op hi hl)
+    exact ledgerInv_run ops _ (inv_apply s op hi) (ledgerInv_apply s op hi hl)
 
 theorem ledgerInv_genesis {s : State} (hg : C05.Genesis s) : LedgerInv s := by
   obtain ⟨_, hf, _, hlg, _⟩ := hg
